@@ -180,6 +180,14 @@ func init() {
 				regReplay(ctx, "delivered_name_and_tags_follow_the_derivation")
 				return
 			}
+			var sc c04StormCase
+			if json.Unmarshal(ctx.Replay, &sc) == nil && sc.NameStorm {
+				ctx.Case(sc, "", "uncontrolled-name-storm-rounds", "")
+				for k := 0; k < 5 && len(ctx.Res.Failures) == 0; k++ {
+					c04NameStorm(ctx, sc.First, sc.Rounds, sc.Iters)
+				}
+				return
+			}
 			var c dCase
 			if err := json.Unmarshal(ctx.Replay, &c); err != nil {
 				fatal(err)
@@ -220,6 +228,9 @@ func init() {
 		// (schedule-controlled registry scenarios: every delivery is checked against the tags of
 		// the derivation it was recorded through; direct predicate)
 		regCrossStream(ctx, ctx.N(150, 3000), "delivered_name_and_tags_follow_the_derivation")
+		// different names derived from one prefixed scope by several goroutines at once
+		// (uncontrolled; the verdict is the set of delivered names and the counters' totals)
+		c04NameStorm(ctx, int(ctx.Seed%7)*3, ctx.N(144, 1440), ctx.N(400, 1000))
 		ctx.Note("caller-map aliasing (the library never writes to a map handed to it and does not retain it: every map is mutated by the harness right after the call) is checked on the implementation only; the immutable model cannot express aliasing")
 		ctx.Note("streams: main (delimiter-free non-empty keys whose sanitized forms stay distinct within one map), collide (delivered value is one of the candidates; not sent to the model), delims (F05b witnesses)")
 	}
